@@ -1,5 +1,5 @@
 (* C03: the statements.  This file contains nothing but the property theorems. *)
-From Maddy Require Session.Committed.
+From Maddy Require Session.Committed Session.CommittedLmtp.
 From Maddy Require Import Lib.Base Session.Model Session.Lemmas.
 Local Open Scope N_scope.
 
@@ -68,6 +68,20 @@ Theorem C03_accepted_recipient_is_listed :
   forall c s r s', do_rcpt c s r = (s', ROk) -> d_rcpts s' = d_rcpts s ++ [r].
 Proof. exact Committed.rcpt_ok_listed. Qed.
 Print Assumptions C03_accepted_recipient_is_listed.
+
+(* Over whole LMTP sessions (no second LHLO inside the session; every recipient block names a
+   target once): a recipient whose reply to DATA is a success has been committed, in the events of
+   this very step, on every one of its targets - whatever happened to the other recipients and
+   targets of the transaction, and however often the address was given. *)
+Theorem C03_lmtp_session_success_commits_own_targets :
+  forall c, (forall r, NoDup (route_of c r)) ->
+  forall ks rd s' per,
+    lmtp c = true -> forallb Committed.quiet ks = true ->
+    step c (Committed.after c ks) (CData rd) = (s', RData per) ->
+    exists ev, log s' = log (Committed.after c ks) ++ ev /\
+      forall r, In (r, true) per -> forall t, In t (route_of c r) -> exists txn i, In (txn, t, i, ECommit true) ev.
+Proof. exact CommittedLmtp.lmtp_session_success_commits_own_targets. Qed.
+Print Assumptions C03_lmtp_session_success_commits_own_targets.
 
 (* non-vacuity: a session with a failing second target *)
 Example C03_example :
